@@ -304,4 +304,248 @@ theorem C11_residue_binfind (r : Residue) (serial : Nat) (alt : Option String)
     | some x => rfl
     | none => simpa using ih'
 
+/-! ### chain and model level: bisection over the children's serial ranges, then the child's lookup -/
+
+section Level
+variable {α β : Type} (atomsOf : α → List Atom)
+
+/-- probe of the child loop of `Chain::binary_find_atom` / `Model::binary_find_atom` -/
+def probeL (serial : Nat) (c : α) : Ordering := (rangeProbe serial (atomsOf c)).getD .eq
+
+theorem ends_of_sorted (l : List Atom) (hne : l ≠ []) (h : l.Pairwise (fun a b => a.serial < b.serial)) :
+    ∃ lo hi, l.head? = some lo ∧ l.getLast? = some hi ∧ lo ∈ l ∧ hi ∈ l ∧
+      ∀ a ∈ l, lo.serial ≤ a.serial ∧ a.serial ≤ hi.serial := by
+  cases hh : l.head? with
+  | none => cases l with | nil => exact absurd rfl hne | cons x xs => cases hh
+  | some lo =>
+    cases hl : l.getLast? with
+    | none => exact absurd (by simpa using hl) hne
+    | some hi =>
+      refine ⟨lo, hi, rfl, rfl, List.mem_of_mem_head? hh, List.mem_of_mem_getLast? hl, ?_⟩
+      intro a ha
+      exact ⟨pairwise_head_le l h lo hh a ha, pairwise_le_last l h hi hl a ha⟩
+
+theorem probeL_gt_of_below (serial : Nat) (r : α) (hne : atomsOf r ≠ [])
+    (hs : (atomsOf r).Pairwise (fun a b => a.serial < b.serial)) (h : ∀ a ∈ atomsOf r, serial < a.serial) :
+    probeL atomsOf serial r = .gt := by
+  obtain ⟨lo, hi, hlo, hhi, mlo, _, _⟩ := ends_of_sorted (atomsOf r) hne hs
+  have := h lo mlo
+  unfold probeL rangeProbe
+  simp only [hlo, hhi]
+  rw [if_neg (by omega), if_pos this]; rfl
+
+theorem probeL_cases (serial : Nat) (r : α) (hne : atomsOf r ≠ [])
+    (hs : (atomsOf r).Pairwise (fun a b => a.serial < b.serial)) :
+    (probeL atomsOf serial r = .gt ∧ ∀ a ∈ atomsOf r, serial < a.serial) ∨
+    (probeL atomsOf serial r = .lt ∧ ∀ a ∈ atomsOf r, a.serial < serial) ∨
+    (probeL atomsOf serial r = .eq ∧ ∃ hi ∈ atomsOf r, serial ≤ hi.serial) := by
+  obtain ⟨lo, hi, hlo, hhi, _, mhi, hb⟩ := ends_of_sorted (atomsOf r) hne hs
+  unfold probeL rangeProbe
+  simp only [hlo, hhi]
+  by_cases h1 : lo.serial ≤ serial ∧ serial ≤ hi.serial
+  · right; right
+    rw [if_pos h1]
+    exact ⟨rfl, hi, mhi, h1.2⟩
+  · rw [if_neg h1]
+    by_cases h2 : serial < lo.serial
+    · left
+      rw [if_pos h2]
+      exact ⟨rfl, fun a ha => by have := (hb a ha).1; omega⟩
+    · right; left
+      rw [if_neg h2]
+      exact ⟨rfl, fun a ha => by have := (hb a ha).2; omega⟩
+
+/-- children whose atoms ascend across the list are partitioned `lt* eq? gt*` by the range probe -/
+theorem probeL_good (serial : Nat) (rs : List α) (hne : ∀ r ∈ rs, atomsOf r ≠ [])
+    (hin : ∀ r ∈ rs, (atomsOf r).Pairwise (fun a b => a.serial < b.serial))
+    (hcross : rs.Pairwise (fun r1 r2 => ∀ x ∈ atomsOf r1, ∀ y ∈ atomsOf r2, x.serial < y.serial)) :
+    Good (probeL atomsOf serial) rs := by
+  unfold Good
+  refine hcross.imp_of_mem ?_
+  intro r1 r2 m1 m2 hx
+  have hgt2 : (∃ x ∈ atomsOf r1, serial ≤ x.serial) → probeL atomsOf serial r2 = .gt := by
+    intro ⟨x, mx, hsx⟩
+    exact probeL_gt_of_below atomsOf serial r2 (hne r2 m2) (hin r2 m2) (fun y my => by have := hx x mx y my; omega)
+  rcases probeL_cases atomsOf serial r1 (hne r1 m1) (hin r1 m1) with ⟨h1, hb⟩ | ⟨h1, _⟩ | ⟨h1, hi, mhi, hle⟩
+  · obtain ⟨lo, _, _, _, mlo, _, _⟩ := ends_of_sorted (atomsOf r1) (hne r1 m1) (hin r1 m1)
+    have h2 := hgt2 ⟨lo, mlo, Nat.le_of_lt (hb lo mlo)⟩
+    rw [h1, h2]; exact ⟨Nat.le_refl _, by simp⟩
+  · rw [h1]; exact ⟨Nat.zero_le _, by simp⟩
+  · have h2 := hgt2 ⟨hi, mhi, hle⟩
+    rw [h1, h2]; exact ⟨by decide, by simp⟩
+
+/-- **one level of the lookup**: bisecting for the child whose serial range contains the number and then
+asking that child gives what asking every child in turn gives — provided a child without an atom of that
+number answers `none` -/
+theorem level_lookup (scan : α → Option β) (serial : Nat) (rs : List α)
+    (hne : ∀ r ∈ rs, atomsOf r ≠ [])
+    (hin : ∀ r ∈ rs, (atomsOf r).Pairwise (fun a b => a.serial < b.serial))
+    (hcross : rs.Pairwise (fun r1 r2 => ∀ x ∈ atomsOf r1, ∀ y ∈ atomsOf r2, x.serial < y.serial))
+    (hscan : ∀ r ∈ rs, (∀ a ∈ atomsOf r, a.serial ≠ serial) → scan r = none) :
+    (bsearch (probeL atomsOf serial) rs.length rs).bind scan = rs.findSome? scan := by
+  rw [C11_bsearch_eq_find (probeL atomsOf serial) rs (probeL_good atomsOf serial rs hne hin hcross)]
+  induction rs with
+  | nil => rfl
+  | cons r rest ih =>
+    have mr : r ∈ r :: rest := by simp
+    have hc := List.pairwise_cons.mp hcross
+    have ih' := ih (fun x hx => hne x (by simp [hx])) (fun x hx => hin x (by simp [hx])) hc.2
+      (fun x hx => hscan x (by simp [hx]))
+    rw [List.find?_cons, List.findSome?_cons]
+    rcases probeL_cases atomsOf serial r (hne r mr) (hin r mr) with ⟨h1, hb1⟩ | ⟨h1, hb1⟩ | ⟨h1, hi, mhi, hle⟩
+    · have hnone := hscan r mr (fun a ha => by have := hb1 a ha; omega)
+      rw [h1, hnone]; simpa using ih'
+    · have hnone := hscan r mr (fun a ha => by have := hb1 a ha; omega)
+      rw [h1, hnone]; simpa using ih'
+    · rw [h1]
+      simp only [beq_self_eq_true, if_true, Option.bind_some]
+      cases hfound : scan r with
+      | some x => rfl
+      | none =>
+        symm
+        rw [List.findSome?_eq_none_iff]
+        intro r2 m2
+        exact hscan r2 (by simp [m2]) (fun a ha => by have := hc.1 r2 m2 hi mhi a ha; omega)
+
+end Level
+
+theorem find_flatMap {α β : Type} (l : List α) (f : α → List β) (p : β → Bool) :
+    (l.flatMap f).find? p = l.findSome? (fun a => (f a).find? p) := by
+  induction l with
+  | nil => rfl
+  | cons a as ih =>
+    rw [List.flatMap_cons, List.find?_append, List.findSome?_cons, ih]
+    cases (f a).find? p <;> rfl
+
+theorem findSome_congr {α β : Type} (l : List α) (f g : α → Option β) (h : ∀ a ∈ l, f a = g a) :
+    l.findSome? f = l.findSome? g := by
+  induction l with
+  | nil => rfl
+  | cons a as ih =>
+    rw [List.findSome?_cons, List.findSome?_cons, h a (by simp), ih (fun x hx => h x (by simp [hx]))]
+
+theorem hac_atom_mem (r : Residue) (h : HAC) (mh : h ∈ r.withHAC) : h.atom ∈ r.atoms := by
+  unfold Residue.withHAC Conformer.withH at mh
+  unfold Residue.atoms
+  simp only [List.mem_flatMap, List.mem_map] at mh ⊢
+  obtain ⟨cf, mcf, a, ma, rfl⟩ := mh
+  exact ⟨cf, mcf, ma⟩
+
+/-- **chain level**: on a chain whose atoms ascend in traversal order (what `renumber` establishes) and that
+has no atom-less residue, `Chain::binary_find_atom` does not panic and returns exactly what the linear scan
+over the chain's (atom, conformer, residue) tuples returns -/
+theorem C11_chain_binfind (c : Chain) (serial : Nat) (alt : Option String)
+    (hne : ∀ r ∈ c.residues, r.atoms ≠ [])
+    (hs : c.atoms.Pairwise (fun a b => a.serial < b.serial)) :
+    c.binaryFindAtom serial alt =
+      some (c.withHACR.find? (fun h => h.atom.serial = serial ∧ h.conformer.alt = alt)) := by
+  unfold Chain.atoms at hs
+  rw [List.pairwise_flatMap] at hs
+  obtain ⟨hin, hcross⟩ := hs
+  have hconf : ∀ r ∈ c.residues, ∀ cf ∈ r.conformers, cf.atoms.Pairwise (fun a b => a.serial < b.serial) := by
+    intro r mr cf mcf
+    have := hin r mr
+    unfold Residue.atoms at this
+    rw [List.pairwise_flatMap] at this
+    exact this.1 cf mcf
+  unfold Chain.binaryFindAtom
+  have hany : c.residues.any (fun r => r.atoms.isEmpty) = false := by
+    rw [List.any_eq_false]
+    intro r mr
+    simpa using hne r mr
+  rw [hany]
+  simp only [Bool.false_eq_true, if_false, Option.some.injEq]
+  have key := level_lookup Residue.atoms
+    (fun r => (r.binaryFindAtom serial alt).map fun h => ({ toHAC := h, residue := r } : HACR))
+    serial c.residues hne hin hcross (by
+      intro r mr hno
+      rw [Option.map_eq_none_iff, C11_residue_binfind r serial alt (hconf r mr), List.find?_eq_none]
+      intro h mh
+      have := hno _ (hac_atom_mem r h mh)
+      simp [this])
+  unfold probeL at key
+  rw [key]
+  unfold Chain.withHACR
+  rw [find_flatMap]
+  apply findSome_congr
+  intro r mr
+  rw [C11_residue_binfind r serial alt (hconf r mr), List.find?_map]
+  rfl
+
+theorem hacr_atom_mem (c : Chain) (h : HACR) (mh : h ∈ c.withHACR) : h.atom ∈ c.atoms := by
+  unfold Chain.withHACR at mh
+  unfold Chain.atoms
+  simp only [List.mem_flatMap, List.mem_map] at mh ⊢
+  obtain ⟨r, mr, x, mx, rfl⟩ := mh
+  exact ⟨r, mr, hac_atom_mem r x mx⟩
+
+/-- **model level** -/
+theorem C11_model_binfind (m : Model) (serial : Nat) (alt : Option String)
+    (hnec : ∀ c ∈ m.chains, c.atoms ≠ [])
+    (hner : ∀ c ∈ m.chains, ∀ r ∈ c.residues, r.atoms ≠ [])
+    (hs : m.atoms.Pairwise (fun a b => a.serial < b.serial)) :
+    m.binaryFindAtom serial alt =
+      some (m.withHACRC.find? (fun h => h.atom.serial = serial ∧ h.conformer.alt = alt)) := by
+  unfold Model.atoms at hs
+  rw [List.pairwise_flatMap] at hs
+  obtain ⟨hin, hcross⟩ := hs
+  have hchain : ∀ c ∈ m.chains, c.binaryFindAtom serial alt =
+      some (c.withHACR.find? (fun h => h.atom.serial = serial ∧ h.conformer.alt = alt)) :=
+    fun c mc => C11_chain_binfind c serial alt (hner c mc) (hin c mc)
+  let scan : Chain → Option HACRC := fun c =>
+    (c.withHACR.find? (fun h => h.atom.serial = serial ∧ h.conformer.alt = alt)).map
+      fun h => ({ toHACR := h, chain := c } : HACRC)
+  have key := level_lookup Chain.atoms scan serial m.chains hnec hin hcross (by
+    intro c mc hno
+    show Option.map _ _ = none
+    rw [Option.map_eq_none_iff, List.find?_eq_none]
+    intro h mh
+    have := hno _ (hacr_atom_mem c h mh)
+    simp [this])
+  unfold Model.binaryFindAtom
+  have hany : m.chains.any (fun c => c.atoms.isEmpty) = false := by
+    rw [List.any_eq_false]
+    intro c mc
+    simpa using hnec c mc
+  rw [hany]
+  simp only [Bool.false_eq_true, if_false]
+  have key' : (bsearch (fun c => (rangeProbe serial c.atoms).getD .eq) m.chains.length m.chains).bind scan =
+      m.withHACRC.find? (fun h => h.atom.serial = serial ∧ h.conformer.alt = alt) := by
+    unfold probeL at key
+    rw [key]
+    unfold Model.withHACRC
+    rw [find_flatMap]
+    apply findSome_congr
+    intro c _
+    rw [List.find?_map]
+    rfl
+  have hb := C11_bsearch_eq_find (probeL Chain.atoms serial) m.chains
+    (probeL_good Chain.atoms serial m.chains hnec hin hcross)
+  unfold probeL at hb
+  split
+  · next hf =>
+    rw [hf] at key'
+    rw [← key']; rfl
+  · next c hf =>
+    have mc : c ∈ m.chains := by
+      rw [hf] at hb
+      exact List.mem_of_find?_eq_some hb.symm
+    rw [hf] at key'
+    rw [hchain c mc, ← key']
+    rfl
+
+/-- **structure level**: `PDB::binary_find_atom` (first model) equals the linear scan, on every structure whose
+first model has ascending serial numbers in traversal order and no atom-less chain or residue -/
+theorem C11_pdb_binfind (p : PDB) (serial : Nat) (alt : Option String)
+    (h : ∀ m, p.models.head? = some m →
+      (∀ c ∈ m.chains, c.atoms ≠ []) ∧ (∀ c ∈ m.chains, ∀ r ∈ c.residues, r.atoms ≠ []) ∧
+      m.atoms.Pairwise (fun a b => a.serial < b.serial)) :
+    p.binaryFindAtom serial alt = some (p.linearFindAtom serial alt) := by
+  unfold PDB.binaryFindAtom PDB.linearFindAtom
+  cases hm : p.models with
+  | nil => rfl
+  | cons m rest =>
+    obtain ⟨h1, h2, h3⟩ := h m (by rw [hm]; rfl)
+    simp only [C11_model_binfind m serial alt h1 h2 h3, Option.map_some]
+
 end PdbModel
